@@ -545,8 +545,14 @@ func Gen(prop, tier string, seed, run uint64) Plan {
 		}
 	}
 	if (prop == "C09" || prop == "C12" || prop == "C13") && r.IntN(4) == 0 {
-		// fault: an upload that is not a capture file at all, or a cut one
-		bad := Op{C: CImp, K: "ImportBad", V: r.IntN(3)}
+		// fault: an upload that is not a capture file at all, a cut one, or a
+		// well-formed capture without a single packet
+		bad := Op{C: CImp, K: "ImportBad", V: r.IntN(4)}
+		at := r.IntN(len(impOps) + 1)
+		impOps = append(impOps[:at], append([]Op{bad}, impOps[at:]...)...)
+	} else if (prop == "C10" || prop == "C05" || prop == "C07" || prop == "C06" || prop == "C16") && r.IntN(5) == 0 {
+		// a capture file that holds no packet (a rotated capture with only its header)
+		bad := Op{C: CImp, K: "ImportBad", V: 3}
 		at := r.IntN(len(impOps) + 1)
 		impOps = append(impOps[:at], append([]Op{bad}, impOps[at:]...)...)
 	}
